@@ -30,11 +30,11 @@ RULE = ("pipelines ctf (Waves.apply_ctf by kwargs / CTF object, Aberrations, Ape
         "distributions), probe (Probe tilt, aberrations, semiangle, scan positions -> build or multislice with detector none/"
         "annular/flexible/pixelated/segmented); 1-3 simultaneous distributions, lengths 2-4 all distinct or all equal, given as "
         "from_values (with weights) / list / ndarray / uniform / gaussian, ensemble_mean per distribution, negative and zero "
-        "values, every polar symbol and alias, eager or lazy with max_batch auto/1/2, float32 or float64; non-trivial = at least "
+        "values, every polar symbol and alias, eager or lazy with max_batch auto/1/2/3/5 (5-7 members on one axis give unequal batches), every ensemble object also partitioned directly with unequal explicit chunkings, float32 or float64; non-trivial = at least "
         "two members compared with scalar runs that differ from each other; distinct = distinct case signature")
 CLAUSES = ["member:values", "axis-found", "axis-values", "axis-length", "mean:values", "mean-axis-removed",
-           "waves-keep-mean-axis", "ensemble-run-completes", "position-axis"]
-QUICK = dict(n=40, time=40)
+           "waves-keep-mean-axis", "ensemble-run-completes", "position-axis", "partition"]
+QUICK = dict(n=30, time=34)
 THOROUGH = dict(n=1300, time=420, shards=16)
 
 # ---- own copy of the polar aberration table (symbol order = axis order is NOT assumed anywhere)
@@ -118,7 +118,12 @@ def _param(rng, name, n, allow_weights, allow_mean, forms):
 
 
 def _lengths(rng, k):
-    if rng.random() < 0.5:
+    r = rng.random()
+    if r < 0.3:
+        # one long axis (5-7 members): batches of 2, 3 or 5 members then have unequal sizes, e.g. (2, 2, 1), (3, 3, 1), (5, 2)
+        lens = [int(rng.integers(5, 8)) if k <= 2 else 5] + [2] * (k - 1)
+        return [int(x) for x in rng.permutation(lens)]
+    if r < 0.65:
         return [int(x) for x in rng.permutation([2, 3, 4])[:k]]       # all distinct
     n = int(rng.choice([2, 2, 3]))
     return [n] * k                                                    # all equal
@@ -141,7 +146,7 @@ def gen(rng, tier):
     cell = G.rand_cell_case(rng, max_atoms=4, max_xy=7.0, max_z=5.0, min_xy=4.0, min_z=2.0)
     case = {"pipeline": pipeline, "cell": cell, "gpts": G.rand_gpts(rng, 12, 26), "slice_thickness": float(rng.uniform(0.8, 2.0)),
             "energy": float(rng.choice([60e3, 100e3, 200e3, 300e3])), "lazy": bool(rng.random() < 0.5),
-            "max_batch": ["auto", "auto", 1, 2][int(rng.integers(0, 4))],
+            "max_batch": ["auto", "auto", 1, 2, 2, 3, 5][int(rng.integers(0, 7))],
             "precision": str(rng.choice(["float32", "float32", "float64"])), "wave_seed": int(rng.integers(0, 2 ** 31 - 1)),
             "extra_axis": bool(rng.random() < 0.4), "fixed": {}, "params": []}
     k = int(rng.choice([1, 2, 2, 3, 3]))
@@ -239,7 +244,7 @@ def gen(rng, tier):
         lens = _lengths(rng, len(names))
         for name, n in zip(names, lens):
             if name == "positions" and case["scan_kind"] == "grid":
-                n = 4 if n == 4 else n          # grid: n positions as (2,2) or (1,n)
+                n = 4 if n == 4 else n          # grid: n positions as (2,2), (2,3) or (1,n)
             case["params"].append(_param(rng, str(name), n, allow_weights=False,
                                          allow_mean=(case["detector"] != "none" or rng.random() < 0.3) and name != "positions",
                                          forms=(simple_forms if is_aberration(name) else
@@ -299,6 +304,16 @@ def fixed_cases(tier):
                     params=[P("semiangle_cutoff", [22.0, 9.0]), P("focal_spread", [30.0, 8.0]), P("angular_spread", [2.5, 0.4])]))
     out.append(dict(ctf, target="Aberrations", measure="waves", fixed={},       # waves are never averaged
                     params=[P("C30", [1e5, -2e5, 0.0], mean=True), P("defocus", [25.0, -60.0])]))
+    # unequal lazy batches: 5 members in batches of 2 -> (2, 2, 1); 7 in batches of 3 -> (3, 3, 1); 7 in 5 -> (5, 2)
+    five = [[0.1, 0.2], [0.8, 0.3], [0.45, 0.9], [0.3, 0.55], [0.7, 0.75]]
+    out.append(dict(probe, lazy=True, max_batch=2, tilt_form="none", scan_kind="custom", params=[P("positions", five)]))
+    out.append(dict(probe, lazy=True, max_batch=2, method="multislice", detector="pixelated", tilt_form="none", scan_kind="custom",
+                    fixed={}, params=[P("defocus", [40.0, -20.0, 90.0, 0.0, 65.0]), P("positions", five[:3]),
+                                      P("semiangle_cutoff", [14.0, 24.0])]))
+    out.append(dict(probe, lazy=True, max_batch=5, method="multislice", detector="annular", tilt_form="none", scan_kind="grid",
+                    params=[P("positions", [[0.1, 0.1], [0.9, 0.8]] + five[:4])]))
+    out.append(dict(ctf, target="Aberrations", measure="waves", lazy=True, max_batch=3, fixed={},
+                    params=[P("coma", [3e3, -1e3, 0.0, 5e3, -4e3, 2e3, 1e3], weights=[1.0, 0.5, 0.8, 1.2, 0.3, 0.9, 0.6])]))
     plane = dict(base, pipeline="plane", tilt_form="xy", fixed_tilt=[0.0, 0.0], ctf_names=["defocus"], detector="none",
                  measure="intensity", fixed={})
     out.append(dict(plane, params=[P("tilt_x", [-12.0, 7.0, 0.0]), P("tilt_y", [4.0, -9.0]), P("defocus", [100.0, -50.0], mean=True)]))
@@ -319,6 +334,8 @@ def fixed_cases(tier):
         else:
             out.append(dict(small, pipeline="ctf", target=["Aberrations", "kwargs", "CTF"][i % 3 if i % 3 < 2 else 0] if i % 2 else "Aberrations",
                             measure="waves", fixed=fixed))
+    out.append(dict(plane, tilt_form="BeamTilt", ctf_names=[], detector="none", measure="as-detected", lazy=True, max_batch=2,
+                    params=[P("tilt", [[10.0, 0.0], [0.0, 10.0], [-10.0, 3.0], [4.0, -10.0], [7.0, 7.0]])]))
     return out
 
 
@@ -434,7 +451,7 @@ def line_or_grid(case, spec, extent):
         return scan, a[None] + t[:, None] * (b - a)[None], (n,)
     lo, hi = np.minimum(a, b), np.maximum(a, b)
     hi = np.where(hi - lo < 0.3, lo + 0.3, hi)
-    shape = (2, 2) if n == 4 else (1, n)
+    shape = (2, 2) if n == 4 else (2, 3) if n == 6 else (1, n)
     ep = ep and 1 not in shape
     scan = abtem.GridScan(start=tuple(lo), end=tuple(hi), gpts=shape, endpoint=ep)
     xs = lo[0] + np.arange(shape[0]) * (hi[0] - lo[0]) / ((shape[0] - 1) if ep else shape[0])
@@ -512,6 +529,37 @@ class Pipeline:
                 out = out.compute(scheduler="synchronous" if max_batch == 1 else "threads")
         return out
 
+    def ensembles(self, given, scan):
+        """(name, object) for every object of the pipeline that carries ensemble axes."""
+        import abtem
+        case = self.case
+        fixed = dict(case["fixed"])
+        out = []
+        with warnings.catch_warnings():
+            warnings.simplefilter("ignore")
+            if self.kind == "ctf":
+                params = {**fixed, **given}
+                tg = case["target"]
+                cls = abtem.CTF if tg in ("kwargs", "CTF") else getattr(abtem.transfer, tg)
+                out.append((cls.__name__, cls(energy=case["energy"], **params)))
+            elif self.kind == "plane":
+                ctf = {k: v for k, v in given.items() if not k.startswith("tilt")}
+                pw = abtem.PlaneWave(energy=case["energy"], tilt=_tilt_arg(case, given))
+                pw.grid.match(self.pot)
+                out += [("PlaneWave", pw), ("tilt", pw.tilt)]
+                if case["ctf_names"]:
+                    out.append(("CTF", abtem.CTF(energy=case["energy"], **{**fixed, **ctf})))
+            else:
+                ab = {k: v for k, v in {**fixed, **given}.items() if is_aberration(k)}
+                sa = {**fixed, **given}["semiangle_cutoff"]
+                probe = abtem.Probe(energy=case["energy"], semiangle_cutoff=sa, tilt=_tilt_arg(case, given), **ab)
+                probe.grid.match(self.pot)
+                if isinstance(scan, abtem.scan.BaseScan):
+                    probe.scan_positions = scan
+                    out.append((type(scan).__name__, scan))
+                out += [("Probe", probe), ("tilt", probe.tilt), ("Aberrations", probe.aberrations), ("Aperture", probe.aperture)]
+        return [(n, o) for n, o in out if tuple(o.ensemble_shape) and 0 not in tuple(o.ensemble_shape)]
+
     def _measure(self, out):
         m = self.case.get("measure", "waves")
         if m == "intensity":
@@ -544,6 +592,98 @@ def locate(ctx, spec, axes, taken):
         if v is not None and v.shape == want.shape and np.allclose(v, want, rtol=1e-6, atol=1e-9):
             return i
     return cands[0] if cands else None
+
+
+# --------------------------------------------------------------------------- direct partition check
+def ensemble_points(obj):
+    """Per ensemble axis: the points the object says it covers along that axis (None when its metadata cannot tell)."""
+    shape = tuple(obj.ensemble_shape)
+    if hasattr(obj, "get_positions"):
+        pos = np.asarray(obj.get_positions(), dtype=float)
+        if len(shape) == 1:
+            return [pos.reshape(shape[0], 2)]
+        p = pos.reshape(shape + (2,))
+        return [p[:, 0, 0], p[0, :, 1]]
+    out = []
+    for ax, n in zip(obj.ensemble_axes_metadata, shape):
+        v = getattr(ax, "values", None)
+        if v is not None:
+            out.append(np.array(v, dtype=float))
+        elif type(ax).__name__ == "ScanAxis" and getattr(ax, "label", "") in ("x", "y"):
+            out.append(float(ax.offset) + float(ax.sampling) * np.arange(n))
+        else:
+            out.append(None)
+    return out
+
+
+def chunk_styles(shape):
+    """Explicit chunkings (tuple of tuples), most of them with unequal block sizes."""
+    def one(n, s):
+        if n == 1:
+            return (1,)
+        if s == 0:
+            return (1,) * n
+        if s == 1:
+            return (2,) * (n // 2) + ((1,) if n % 2 else ())
+        if s == 2:
+            return (n - 1, 1)
+        if s == 3:
+            return (1, n - 1)
+        return (3,) * (n // 3) + ((n % 3,) if n % 3 else ()) if n > 3 else (n,)
+    seen, out = set(), []
+    for s in range(5):
+        c = tuple(one(n, (s + a) % 5 if s else 0) for a, n in enumerate(shape))
+        if c not in seen:
+            seen.add(c)
+            out.append(c)
+    return out
+
+
+def check_partitions(ctx, what, obj):
+    """Blocks of an ensemble object, eager and lazy, must tile its members in order for every chunking."""
+    shape = tuple(obj.ensemble_shape)
+    full = ensemble_points(obj)
+    if len(full) != len(shape):
+        return
+
+    def judge(block, idx, ranges, chunks, mode):
+        block = block.item() if isinstance(block, np.ndarray) else block
+        bshape = tuple(block.ensemble_shape)
+        want_shape = tuple(hi - lo for lo, hi in (ranges[a][idx[a]] for a in range(len(shape))))
+        if not ctx.expect(bshape == want_shape, "partition", what=what, mode=mode, chunks=chunks, block=list(idx),
+                          got=list(bshape), want=list(want_shape)):
+            return
+        pts = ensemble_points(block)
+        for a in range(len(shape)):
+            lo, hi = ranges[a][idx[a]]
+            if full[a] is None or a >= len(pts) or pts[a] is None:
+                continue
+            w = full[a][lo:hi]
+            g = np.asarray(pts[a], dtype=float)
+            ctx.expect(g.shape == w.shape and np.allclose(g, w, rtol=1e-6, atol=1e-6), "partition", what=what, mode=mode,
+                       chunks=chunks, block=list(idx), axis=a, got=g.tolist(), want=w.tolist())
+
+    for chunks in chunk_styles(shape):
+        ranges = [list(zip(np.cumsum((0,) + c[:-1]).tolist(), np.cumsum(c).tolist())) for c in chunks]
+        nblocks = tuple(len(c) for c in chunks)
+        if any(len(set(c)) > 1 for c in chunks):
+            ctx.monitor("unequal-chunkings-checked")
+        seen = []
+        for idx, slices, block in obj.generate_blocks(chunks):
+            idx = tuple(int(i) for i in idx)
+            seen.append(idx)
+            want = tuple(slice(*ranges[a][idx[a]]) for a in range(len(shape)))
+            ctx.expect(tuple(slices) == want, "partition", what=what, mode="generate_blocks:slices", chunks=chunks,
+                       got=repr(slices), want=repr(want))
+            judge(block, idx, ranges, chunks, "generate_blocks")
+        ctx.expect(seen == [tuple(int(i) for i in ix) for ix in np.ndindex(nblocks)], "partition", what=what,
+                   mode="generate_blocks:order", chunks=chunks, got=seen)
+        lazy = obj.ensemble_blocks(chunks).compute(scheduler="synchronous")
+        lazy = np.asarray(lazy, dtype=object)
+        if ctx.expect(lazy.shape == nblocks, "partition", what=what, mode="ensemble_blocks:shape", chunks=chunks,
+                      got=list(lazy.shape), want=list(nblocks)):
+            for ix in np.ndindex(nblocks):
+                judge(lazy[ix], ix, ranges, chunks, "ensemble_blocks")
 
 
 # --------------------------------------------------------------------------- check
@@ -580,8 +720,12 @@ def _check(ctx, case, abtem, transfer_mod):
             scan = (0.31 * pipe.extent[0], 0.47 * pipe.extent[1])
     npos = int(np.prod(pos_shape)) if pos_shape else 1
 
-    # ---- run the ensemble through the code under test, counting kernel evaluations inside it
     given = {s.name: s.obj for s in par_specs}
+    # ---- every ensemble object of the pipeline, cut into (unequal) blocks directly
+    for what, obj in pipe.ensembles(given, scan):
+        check_partitions(ctx, what, obj)
+
+    # ---- run the ensemble through the code under test, counting kernel evaluations inside it
     calls = {"n": 0}
     got, err = None, None
     with G.Wrapped() as w:
